@@ -143,7 +143,6 @@ class Portfolio(IncrementalTrackingSolver):
         _debug("Creating Queue and Pipe")
         signaling_queue: Queue = Queue()
         child_ctrl_pipe, my_ctrl_pipe = Pipe()
-        self._ctrl_pipe = my_ctrl_pipe
 
         processes = []
         for idx, (sname, opts) in enumerate(self.solvers):
@@ -187,7 +186,9 @@ class Portfolio(IncrementalTrackingSolver):
                 assert type(res) is bool, type(res)
                 break
         _debug("Solver %s finished first saying %s", sname, res)
-        # Kill all processes, except for the "winner"
+        # Kill all processes, except for the "winner", that is the
+        # solver to talk to from now on
+        self._ctrl_pipe = my_ctrl_pipe
         for p in processes:
             if p.name == sname:
                 self._ext_solver = p
